@@ -77,6 +77,8 @@ static uint32_t id_class(vp_rng_t* r, uint32_t k)
     static const uint32_t fixed[] = { 0, 1, 0x7fe, 0x7ff, 0x800, 0x801, 0x1fffffff, 0x1ffffffe, 0x12345678 & 0x1fffffff, 0x000007ff | 0x10000000 };
     if (k < 10) return fixed[k];
     if (k < 14) { static const uint32_t big[] = { 0x20000000, 0x800007ff, 0xffffffff, 0x40000123 }; return big[k - 10]; }
+    if (k < 14 + 34) return 0x7f0 + (k - 14);                     /* every identifier around the extended-frame threshold */
+    if (k < 14 + 34 + 29) return (uint32_t)1 << (k - 48);          /* every single identifier bit */
     if (k & 1) return (uint32_t)vp_rng_next(r) & 0x1fffffff;
     return (uint32_t)vp_rng_next(r) & 0x7ff;
 }
@@ -105,7 +107,7 @@ int main(void)
             uint32_t pad = (4 - L % 4) % 4;
             if (!judged && b != B_FULL_ONESHOT && b != B_BRIEF_ONESHOT) continue;
             for (int fd = 0; fd < 2; fd++) {
-                uint32_t nid = judged ? 14 + (uint32_t)reps : 2;
+                uint32_t nid = judged ? 14 + 34 + 29 + (uint32_t)reps : 2;
                 for (uint32_t k = 0; k < nid; k++) {
                     uint32_t id = id_class(&c->rng, k);
                     /* payload classes */
@@ -155,7 +157,7 @@ int main(void)
                             }
                         }
                         if (judged) {
-                            nontrivial += (placement == 0 && k < 14);
+                            nontrivial += (placement == 0 && k < 14 + 34 + 29);
                             if (brief) {
                                 c->evals++;
                                 if (ret != (int)total && vp_viol(c, "can", bnames[b], "return-value", 0, 0, 0)) {
